@@ -6,7 +6,7 @@ import shutil
 
 from hypothesis import strategies as st
 
-from .. import gitgen, graph, projgen, trees
+from .. import fsorder, gitgen, graph, projgen, trees
 from ..isolate import run_cond
 from ..runner import Outcome
 
@@ -14,9 +14,10 @@ ID = "C06"
 LEVEL = "fault_enumeration"
 RULE = ("Hypothesis-generated command histories over one project (experiments with args/options, commands, groups; optional git "
         "repository whose HEAD moves and whose tree becomes dirty/clean between steps): run(T, flags, outcome map, schedule tape), "
-        "archive, wipe+restore of an earlier archive, restore on top, gc; every command can be killed (os._exit at the k-th executed "
-        "Python line of src/conductor/**, k drawn per command from a dry run on a copy of the project) - plus a sweep that "
-        "enumerates the kill point over every 4th (thorough: every) line of 2 fixed run scenarios and 1 restore scenario. Virtual "
+        "archive, wipe+restore of an earlier archive, restore on top, gc, clean -f; every command can be killed (os._exit at the k-th executed "
+        "Python line of src/conductor/** - for clean/restore steps optionally also of shutil.py, i.e. inside rmtree/copytree, under a "
+        "generated directory-listing order; k drawn per command from a dry run on a copy of the project) - plus a sweep that "
+        "enumerates the kill point over every 4th (thorough: every) line of 2 fixed run scenarios, 1 restore and 2 clean scenarios. Virtual "
         "children write a `partial` file when they start and `done` + data when they exit 0. Invariant checked after EVERY step "
         "through a fresh sqlite connection: each row's directory exists, holds `done`, stdout.log/stderr.log, and args.json/"
         "options.json iff declared (decoding to the declaration); each new row belongs to an execution that exited 0 in that "
@@ -24,13 +25,22 @@ RULE = ("Hypothesis-generated command histories over one project (experiments wi
         "Non-trivial = a killed step whose kill point lies after the first spawn/copy and before the command's end, or a run in "
         "which one experiment fails while another is recorded. Distinct = SHA-1 of case JSON.")
 ASSUMPTIONS = ["process-kill semantics at Python-line granularity; power loss is out of scope",
-               "`cond clean` is outside the property's quantifier and is not injected (the harness wipes cond-out itself to model a fresh clone)"]
-ESSENTIAL = ["kill_during_run_after_spawn", "kill_during_restore_after_copy", "kill_during_gc", "nonzero_exit_not_recorded",
+               "the order in which a directory's entries are listed is chosen by the case (fs order, sorted, reversed, seeded permutations)"]
+ESSENTIAL = ["kill_during_run_after_spawn", "kill_during_restore_after_copy", "kill_during_gc", "kill_during_clean_partway", "kill_inside_shutil", "nonzero_exit_not_recorded",
              "dirty_flag_true", "head_moved", "restore_after_wipe", "args_and_options_recorded", "kill_between_exit_and_record"]
 TECHNIQUE = "stateful property testing (Hypothesis-generated command histories) with kill-point fault injection (sys.settrace + os._exit) and an on-disk invariant"
 LEVEL_TEXT = ("Histories are generated; kill points are drawn per command and enumerated for fixed scenarios. The invariant is evaluated on "
               "the disk state a user's next command would see.")
 LEVEL_NOTE = "Trusted: sqlite journal recovery on reopen; virtual-kernel file materialisation as the task's 'finished output'."
+
+SHUTIL = os.path.dirname(shutil.__file__) + "/shutil.py"
+ORDERS = ["fs", "sorted", "reversed", 1, 2, 3, 4]
+
+
+def _files(deep):
+    base = (os.path.join(os.path.realpath(os.environ.get("VERIF_REPO", "/repo")), "src", "conductor"),)
+    return base + ((SHUTIL,) if deep else ())
+
 
 FILES = {"*": {"start": [["partial", "started"]], "ok": [["done", "done"], ["data/result.bin", "\x00\x01payload"]]}}
 
@@ -47,8 +57,14 @@ def _case(draw, tier):
     nsteps = draw(st.sampled_from([1, 2, 3, 4, 5, 6]))
     steps = []
     for _ in range(nsteps):
-        op = draw(st.sampled_from(["run", "run", "run", "archive", "restore", "wipe_restore", "gc", "git"]))
+        op = draw(st.sampled_from(["run", "run", "run", "archive", "restore", "wipe_restore", "gc", "git", "clean"]))
         s = {"op": op, "kill": draw(st.sampled_from([None, None] + list(range(0, 1000, 37))))}
+        if op in ("clean", "restore", "wipe_restore"):
+            # kill points inside shutil.rmtree / shutil.copytree as well, under a generated directory-listing order
+            s["deep"] = draw(st.sampled_from([True, True, False]))
+            s["order"] = draw(st.sampled_from(ORDERS))
+            if op == "clean":
+                s["kill"] = draw(st.sampled_from([None] + list(range(0, 1000, 37))))
         if op == "run":
             s["target"] = draw(st.sampled_from([0, 0] + list(range(len(g["tasks"])))))
             s["flags"] = draw(st.sampled_from([[], ["again"], ["again"]]))
@@ -99,6 +115,22 @@ FIXED = [
      "steps": [{"op": "run", "target": 0, "flags": [], "outcomes": {}, "tape": [], "kill": None},
                {"op": "archive", "latest": False, "kill": None},
                {"op": "wipe_restore", "kill": "sweep"}]},
+    {"pkgs": ["", "a", "zz"], "tasks": [
+        {"pkg": 0, "name": "g", "kind": "group", "deps": [[1, "rel"], [2, "abs"], [3, "abs"]]},
+        {"pkg": 0, "name": "e1", "kind": "exp", "deps": [], "par": False, "args": ["a"], "opts": []},
+        {"pkg": 1, "name": "e2", "kind": "exp", "deps": [], "par": False, "args": [], "opts": [["n", 2]]},
+        {"pkg": 2, "name": "e3", "kind": "exp", "deps": [], "par": False, "args": [], "opts": []}],
+     "git": "disabled", "jobs": None,
+     "steps": [{"op": "run", "target": 0, "flags": [], "outcomes": {}, "tape": [], "kill": None},
+               {"op": "clean", "deep": True, "order": "sorted", "kill": "sweep"}]},
+    {"pkgs": ["", "a", "zz"], "tasks": [
+        {"pkg": 0, "name": "g", "kind": "group", "deps": [[1, "rel"], [2, "abs"], [3, "abs"]]},
+        {"pkg": 0, "name": "e1", "kind": "exp", "deps": [], "par": False, "args": ["a"], "opts": []},
+        {"pkg": 1, "name": "e2", "kind": "exp", "deps": [], "par": False, "args": [], "opts": [["n", 2]]},
+        {"pkg": 2, "name": "e3", "kind": "exp", "deps": [], "par": False, "args": [], "opts": []}],
+     "git": "disabled", "jobs": None,
+     "steps": [{"op": "run", "target": 0, "flags": [], "outcomes": {}, "tape": [], "kill": None},
+               {"op": "clean", "deep": True, "order": "reversed", "kill": "sweep"}]},
 ]
 _N = {}
 
@@ -248,12 +280,12 @@ def run_case(case):
         projgen.rm(work)
 
 
-def _kill_k(w, argv, kspec, frac):
+def _kill_k(w, argv, kspec, frac, files, pre):
     """Dry run on a copy of the project to learn the number of executed lines."""
     copy = os.path.join(w.work, "dry")
     shutil.copytree(w.root, copy, symlinks=True)
     try:
-        res = run_cond(copy, argv, kspec=kspec, inject={"mode": "count"})
+        res = run_cond(copy, argv, kspec=kspec, inject={"mode": "count", "files": files}, pre=pre)
         n = res.get("lines", 0)
     finally:
         shutil.rmtree(copy, ignore_errors=True)
@@ -297,21 +329,29 @@ def _run(case, work):
             argv = ["restore", path]
         elif op == "gc":
             argv = ["gc"]
+        elif op == "clean":
+            argv = ["clean", "-f"]
         inject = None
         kill = step.get("kill")
+        files = _files(step.get("deep"))
+        order = step.get("order")
+        pre = (lambda res_, order=order: fsorder.install(order)) if order not in (None, "fs") else None
         if kill == "sweep":
             if sweep_k == "count":
-                res = run_cond(w.root, argv, kspec=kspec, inject={"mode": "count"})
+                dry = os.path.join(w.work, "dry")
+                shutil.copytree(w.root, dry, symlinks=True)
+                res = run_cond(dry, argv, kspec=kspec, inject={"mode": "count", "files": files}, pre=pre)
+                shutil.rmtree(dry, ignore_errors=True)
                 summary["sweep_lines"] = res.get("lines", 0)
-                w.invariant(i, step, res)
                 continue
             kill_at = sweep_k
-            inject = {"mode": "kill", "at": kill_at}
+            inject = {"mode": "kill", "at": kill_at, "files": files}
         elif kill is not None:
-            n = _kill_k(w, argv, kspec, kill)
+            n = _kill_k(w, argv, kspec, kill, files, pre)
             if n > 0:
-                inject = {"mode": "kill", "at": 1 + kill * n // 1000}
-        res = run_cond(w.root, argv, kspec=kspec, inject=inject, timeout=180)
+                inject = {"mode": "kill", "at": 1 + kill * n // 1000, "files": files}
+        rows_before_step = projgen.read_rows(w.root)
+        res = run_cond(w.root, argv, kspec=kspec, inject=inject, timeout=180, pre=pre)
         killed = res["status"] == "killed"
         if res.get("uncaught") and not killed:
             # not part of this property (e.g. a kill inside VersionIndex.create_or_load leaves an index file without
@@ -332,6 +372,13 @@ def _run(case, work):
                 w.nontrivial = True
             if op == "gc":
                 w.labels.add("kill_during_gc")
+            if op == "clean" and rows_before_step:
+                left = [r for r in rows_before_step if os.path.isdir(projgen.version_dir(w.root, r[0], r[1]))]
+                if len(left) < len(rows_before_step) or not os.path.exists(projgen.index_path(w.root)):
+                    w.labels.add("kill_during_clean_partway")
+                    w.nontrivial = True
+            if inj.get("file", "").endswith("shutil.py"):
+                w.labels.add("kill_inside_shutil")
         rows = w.invariant(i, step, res)
         if op == "run" and not killed:
             exits = [e for e in res.get("events", []) if e["e"] == "exit" and not e.get("foreign")]
